@@ -518,6 +518,11 @@ def node_cases(seed, tier):
         for nm in (0, ALL1):
             cases.append(cfg(1, 30, t0=5000) + ' | ' + ' ; '.join(backlog(r, k, [claim(30, nm)])))
     cases.append(cfg(2, 30, t0=5000) + ' | ' + ' ; '.join(backlog(r, 20, [claim(31, 0)]) + backlog(r, 19, [claim(30, 0), claim(32, 0)])))
+    # every reassembly slot holds an unfinished fast packet stamped shortly before the 32-bit millisecond clock rolls over; afterwards a
+    # lower NAME claims our address: the claim needs a slot (the oldest one, older than 100 ms) like any other frame (seed C03-21)
+    for t0, gap in ((4294967295 - 50, 150), (4294967295 - 120, 130), (5000, 150), (2147483647 - 50, 150)):
+        first = [rx(can_id(3, 129029, 60 + j, 255), [0x20 * (j % 8), 20, 1, 2, 3, 4, 5, 6]) for j in range(5)]
+        cases.append(cfg(1, 30, t0=t0) + ' | ' + ' ; '.join(first + ['P', 'T %d' % gap, claim(30, 0), 'P', 'T 251', 'P']))
     # 32-bit scheduler: a deadline that computes to exactly 0xffffffff (the 'disabled' marker) must still fire - cold starts whose open delay,
     # open retry or constructor time hit it, and claims whose 250 ms window ends there (seed C03-18); nothing special in the 64-bit build
     for t0 in (4294967295 - 200, 4294967295, 4294967295 - 1000, 4294967295 - 201, 4294967295 - 199, 4294967295 - 300, 4294967295 - 100, 4294967295 - 301):
